@@ -40,6 +40,12 @@ def setup(ir, ndev=1, budget=400):
         st.ev('totp.validate', code=code, step=c, ok=ok)
         return ok
     H.stub('github.com/pquerna/otp/totp.Validate', validate)
+    def hotp_validate(ex_, st, a, ins):
+        # hotp.ValidateCustom(passcode, counter, secret, opts): the value is valid for exactly that counter (contract)
+        c = lib.tobv(a[1]); okb = a[0] == HOTP(a[2], c)
+        st.ev('totp.validate', code=a[0], step=c, ok=okb)
+        return (okb, nilerr())
+    H.stub('github.com/pquerna/otp/hotp.ValidateCustom', hotp_validate)
     # int64(math.Floor(float64(x) / 30.0)) is computed exactly as integer floor division: float64 holds every |x| < 2^53 exactly and the
     # rounding error of the quotient (< 1e-7 for epoch seconds) cannot cross an integer boundary (fractions are multiples of 1/30).
     class FInt:
